@@ -367,7 +367,15 @@ def r7_frame_errors_are_errors(ctx):
         ctx.check(R, "frame-error-is-400", names == {"error::HttpError::for_bad_request"}, "constructors of the error item for a failed frame: %s" % (sorted(names) or "none"), (g, sp["switch_bb"]))
 
 
-RULES = [("C11.R7", r7_frame_errors_are_errors), ("C11.R1", r1_cap_before_delivery), ("C11.R2", r2_refusal_final), ("C11.R3", r3_cap_provenance), ("C11.R4", r4_effective_limit), ("C11.R5", r5_who_reads_body), ("C11.R6", r6_only_counted_bytes_refuse)]
+def r8_declared_limit_is_stored(ctx):
+    """`the effective limit is the endpoint's override if declared`: the builder that records the override stores its argument,
+    whatever its value.  This is C19.R3, re-evaluated here (adversary change C11-E dropped an override of 0 in the builder)."""
+    from . import c19
+    from .lib_c01 import Renamed
+    c19.r3_builders(Renamed(ctx, "C11.R8", "ApiEndpoint::request_body_max_bytes stores exactly the declared value as the endpoint's override (all builders write their argument unmodified)"))
+
+
+RULES = [("C11.R8", r8_declared_limit_is_stored), ("C11.R7", r7_frame_errors_are_errors), ("C11.R1", r1_cap_before_delivery), ("C11.R2", r2_refusal_final), ("C11.R3", r3_cap_provenance), ("C11.R4", r4_effective_limit), ("C11.R5", r5_who_reads_body), ("C11.R6", r6_only_counted_bytes_refuse)]
 
 SELFTEST = [
     {"name": "ge-for-gt", "kind": "mutant", "edits": [("dropshot/src/extractor/body.rs", "if bytes_read + len > self.cap {", "if bytes_read + len >= self.cap {")], "expect": ["C11.R1"],
@@ -422,3 +430,4 @@ LEVEL_TEXT += (" The stream rules (R1, R2, R6, R7) are stated over an abstract s
                "the try_stream! generator (item = yield, running count = a local re-assigned in the loop) and a futures::stream::try_unfold step function (item = the step result Ok(Some((item, next))), "
                "end = Ok(None), error = Err / `?`; the running count and `self` are components of the state tuple: the count is 0 in the initial state, never written inside a step and carried on as "
                "count + len of the delivered payload, `self` is carried on unchanged and its cap never written or mutably borrowed). Any other mechanism fails closed.")
+LEVEL_TEXT += " Also (R8 = C19.R3): the builder that records a per-endpoint override stores exactly the declared value."
